@@ -86,3 +86,13 @@ Fixpoint so_obs (st : so_state) (cs : list so_call) : list (list N) :=
 Definition c08o_case := (list so_call * list (list N))%type.
 Definition c08o_ok (c : c08o_case) : bool :=
   let '(cs, obs) := c in beq_list (beq_list N.eqb) (so_obs so_init cs) obs.
+
+(* ---- c08w: windowSize = uint16(cwndSize) after recvAck's lower clamp, for an injected cwndSize = m * 2^e
+   (also beyond 65536, where the conversion wraps), and what framesToSend then answers with two unsent frames
+   buffered (timer case with rtoCounter = 0; new data with unacked = 0) *)
+From Hop Require Import TubesFloat.
+Definition c08w_case := (Z * Z * N * Z * Z)%type.
+Definition c08w_ok (c : c08w_case) : bool :=
+  let '(m, e, w, rto, nw) := c in
+  let w' := window_after_ack (m, e) in
+  N.eqb w' w && Z.eqb rto (if (0 <? Z.of_N w')%Z then 1%Z else 0%Z) && Z.eqb nw (Z.min (Z.of_N w') 2%Z).
